@@ -3,7 +3,8 @@
    Inv own ownd ts w: every live item's count = the client's own references + references from live
    containers + pending releases; every data block has exactly one owner; nothing dead is
    referenced.  [own] is the client's reference count per item: the documented ownership rules. *)
-From CB Require Import Word HHeap HItems HOps HHist HRef_proofs HCont_proofs HHist_proofs HHist2 HHist2_proofs.
+From CB Require Import Word HHeap HItems HOps HHist HRef_proofs HCont_proofs HHist_proofs HHist2 HHist2_proofs HHist3 HHist3_proofs.
+From CB Require Import HCopy_proofs.
 Local Open Scope N_scope.
 
 (* releasing a reference the client owns never touches released memory, never releases twice, never
@@ -108,3 +109,158 @@ Theorem C04_string_lifecycle : forall refuse s own ownd w text bytes,
     Inv own ownd [] w3 /\ HCont_proofs.wf w3 /\ caps w3.
 Proof. exact string_lifecycle. Qed.
 Print Assumptions C04_string_lifecycle.
+
+(* ------------------------------------------------------------------------------------------ *)
+(* The reference-count calls the C source of this run makes (gen/Gen_effects.v, translator/effects.py,
+   Bridge_effects.v): cbor_incref adds one and cbor_move subtracts one with 64-bit wrap-around, both
+   return their argument; the container functions take exactly one reference on the element they
+   store (none when they refuse), cbor_array_get / cbor_tag_item one on the element they hand out,
+   cbor_array_replace releases the old element once; and H's operations do the same
+   (HPlans_proofs.v). *)
+From Coq Require Import ZArith String List.
+From CB Require Import GenLeafTypes HPlans HPlans_proofs Bridge_effects.
+From CBGen Require Import Gen_effects.
+Import ListNotations.
+Local Open Scope string_scope.
+Local Open Scope list_scope.
+Local Open Scope N_scope.
+
+Theorem C04_code_refcount_plans : forall rc, rc < 2^64 ->
+  Gcbor_incref (Z.of_N rc) = incref_plan rc /\ Gcbor_move (Z.of_N rc) = move_plan rc /\
+  Gcbor_tag_set_item = tag_set_item_plan /\ Gcbor_tag_item = tag_item_plan.
+Proof.
+  intros rc H. split; [exact (bridge_plan_incref rc H)|]. split; [exact (bridge_plan_move rc H)|].
+  split; [exact bridge_plan_tag_set_item | exact bridge_plan_tag_item].
+Qed.
+Print Assumptions C04_code_refcount_plans.
+
+Theorem C04_code_container_incref_plans : forall definite e al ok i dst, e < 2^64 -> al < 2^64 -> i < 2^64 ->
+  Gcbor_array_push (Z.of_N al) (dst_z definite) (Z.of_N e) ok = array_push_plan definite e al ok /\
+  Gcbor_array_get (Z.of_N al) dst (Z.of_N e) (Z.of_N i) = array_get_plan al dst e i /\
+  Gcbor_array_replace (Z.of_N al) dst (Z.of_N e) (Z.of_N i) = array_replace_plan al dst e i /\
+  G_cbor_map_add_value (Z.of_N al) dst (Z.of_N e) = map_add_value_plan al dst e.
+Proof.
+  intros definite e al ok i dst He Ha Hi.
+  split; [exact (bridge_plan_array_push definite e al ok He Ha)|].
+  split; [exact (bridge_plan_array_get al dst e i He Hi)|].
+  split; [exact (bridge_plan_array_replace al dst e i He Hi) | exact (bridge_plan_map_add_value al dst e He)].
+Qed.
+Print Assumptions C04_code_container_incref_plans.
+
+Theorem C04_incref_follows_plan : forall a w rc n,
+  heap w a = Some (CItem rc n) ->
+  let p := incref_plan rc in
+  exists w', incref a w = Ret a w' /\ p_ret p = RP (PArg 0) /\
+    heap w' a = Some (CItem (fieldN "refcount" p) n) /\ trace w' = trace w.
+Proof. exact incref_follows_plan. Qed.
+Theorem C04_move_follows_plan : forall a w rc n,
+  heap w a = Some (CItem rc n) ->
+  let p := move_plan rc in
+  exists w', move a w = Ret a w' /\ p_ret p = RP (PArg 0) /\
+    heap w' a = Some (CItem (fieldN "refcount" p) n) /\ trace w' = trace w.
+Proof. exact move_follows_plan. Qed.
+Theorem C04_tag_set_item_follows_plan : forall t x w rc v old rcx nx,
+  heap w t = Some (CItem rc (NTag v old)) ->
+  heap w x = Some (CItem rcx nx) ->
+  t <> x ->
+  let p := tag_set_item_plan in
+  p_effs p = [Incref (PArg 1); SetPtr (PArg 0) "metadata.tagged_item" (PArg 1)] /\
+  exists w',
+    tag_set_item t x w = Ret tt w' /\
+    heap w' t = Some (CItem rc (NTag v (Some x))) /\
+    heap w' x = Some (CItem (bump (increfs_arg 1 p) rcx) nx) /\
+    trace w' = trace w.
+Proof. exact tag_set_item_follows_plan. Qed.
+Theorem C04_array_replace_follows_plan : forall a i v w rc indef d sz allocated elems dst,
+  heap w a = Some (CItem rc (NArr indef (Some d) allocated elems)) ->
+  heap w d = Some (CData sz) ->
+  let p := array_replace_plan allocated dst (len elems) i in
+  (ret_bool p = false ->
+     p_effs p = [] /\ array_replace a i v w = Ret false (HCont_proofs.w_log (AccR a) w)) /\
+  (ret_bool p = true ->
+     p_effs p = [Incref (PArg 2); Decref (PSlot (PField (PArg 0) "data") (Z.of_N i) "");
+                 Store (PField (PArg 0) "data") (Z.of_N i) "" (PArg 2)] /\
+     forall old rco no rcv nv,
+       nth_error elems (N.to_nat i) = Some old ->
+       heap w old = Some (CItem rco no) -> 1 < rco ->
+       heap w v = Some (CItem rcv nv) ->
+       a <> old -> a <> v -> old <> v ->
+       exists w',
+         array_replace a i v w = Ret true w' /\
+         heap w' a = Some (CItem rc (NArr indef (Some d) (fieldN "allocated" p)
+                                       (set_nth elems (N.to_nat i) v))) /\
+         len (set_nth elems (N.to_nat i) v) = fieldN "end_ptr" p /\
+         heap w' old = Some (CItem (rco - len (filter is_decref (p_effs p))) no) /\
+         heap w' v = Some (CItem (bump (increfs_arg 2 p) rcv) nv) /\
+         trace w' = trace w).
+Proof. exact array_replace_follows_plan. Qed.
+Print Assumptions C04_incref_follows_plan.
+Print Assumptions C04_move_follows_plan.
+Print Assumptions C04_tag_set_item_follows_plan.
+Print Assumptions C04_array_replace_follows_plan.
+(* ---- the third layer of client calls (HHist3.v): cbor_new_int8..64 (value not initialised) /
+   cbor_set_uint8..64 / cbor_mark_uint / cbor_mark_negint, cbor_new_float2/4/8 / cbor_set_float2/4/8,
+   cbor_new_ctrl / cbor_set_ctrl / cbor_set_bool / cbor_build_bool / cbor_new_null / cbor_new_undef,
+   cbor_move alone and in the idioms f(.., cbor_move(x)) for cbor_array_push / cbor_map_add /
+   cbor_tag_set_item / cbor_build_tag, cbor_intermediate_decref, cbor_build_string, the eight type-specific
+   serializers, the predicates and the value getters -- together with every call of the two earlier layers
+   ([HHist3.op3] embeds them).  Under the rules [legal3] (HHist3_proofs.v: the client holds a reference to
+   every operand; the CBOR_ASSERT type / width preconditions hold; no value is read -- by a getter, a
+   serializer, cbor_copy, or after insertion into a container -- before it has been stored; cbor_move only
+   on an item that has another reference, except in cbor_tag_set_item(t, cbor_move(x)), which cannot fail)
+   a call returns, never faults, and re-establishes the accounting invariant with the client's
+   ownership updated by [own_after3]: for every allocator oracle and every nesting limit ---- *)
+Theorem C04_step3 : forall refuse L s own ownd w o,
+  Inv own ownd [] w -> HCont_proofs.wf w -> caps w -> legal3 s own w o ->
+  exists s' out w', step3 refuse L s o w = Ret (s', out) w' /\
+    Inv (own_after3 s o own s') ownd [] w' /\ HCont_proofs.wf w' /\ caps w'.
+Proof. exact HHist3_proofs.C04_step3. Qed.
+Print Assumptions C04_step3.
+
+Theorem C04_history3 : forall refuse L ops, legal_history3 refuse L ops s3_0 own0 world0 ->
+  exists s' outs w', run_hist3 refuse L ops s3_0 [] world0 = Ret (s', outs) w' /\
+    Inv (own_hist3 refuse L ops s3_0 own0 world0) own0 [] w'.
+Proof. exact HHist3_proofs.C04_history3. Qed.
+Print Assumptions C04_history3.
+
+(* cbor_new_int8..64: atomic under refusal (NULL, heap unchanged); granted: one fresh block of
+   sizeof(cbor_item_t) + width bytes, count 1, owned by the client, its value recorded as not yet stored *)
+Theorem C04_new_int : forall refuse s own ownd w iw,
+  Inv own ownd [] w -> caps w ->
+  exists s' ok w', new_int refuse s iw w = Ret (s', Out (OutHandle ok)) w' /\
+    Inv (match new_handle3 s' with Some a => own1 own a | None => own end) ownd [] w' /\ HCont_proofs.wf w' /\ caps w' /\
+    ((refuse (nreq w) (SZ_ITEM + iw_bytes iw) = true /\ ok = false /\ s' = mkcs3 (hpush (base s) None) (unset s) /\
+      heap w' = heap w /\ next w' = next w /\ trace w' = EvMalloc (SZ_ITEM + iw_bytes iw) None :: trace w)
+     \/
+     (refuse (nreq w) (SZ_ITEM + iw_bytes iw) = false /\ ok = true /\
+      s' = mkcs3 (hpush (base s) (Some (next w))) (next w :: unset s) /\ heap w (next w) = None /\
+      heap w' = upd (heap w) (next w) (Some (CItem 1 (NInt false iw 0))) /\ next w' = next w + 1 /\
+      trace w' = EvMalloc (SZ_ITEM + iw_bytes iw) (Some (next w)) :: trace w)).
+Proof. exact new_int_step. Qed.
+Print Assumptions C04_new_int.
+
+(* cbor_array_push(a, cbor_move(x)) for ANY count of x (in particular the client's sole reference): if the
+   push succeeds the array has taken over the client's reference; if it fails (full definite array, growth
+   refused) nothing but the count of x has changed, which is one lower -- the accounting is still exact
+   when x has another reference, and x is left with count 0 otherwise (the documented hazard of cbor_move) *)
+Theorem C04_push_move : forall refuse s own ownd w a x p q rc indef d c l rcq nq,
+  Inv own ownd [] w -> caps w ->
+  hget (base s) a = Some p -> hget (base s) x = Some q -> is_set s x = true ->
+  0 < own q -> p <> q ->
+  heap w p = Some (CItem rc (NArr indef d c l)) -> heap w q = Some (CItem rcq nq) -> rcq < W64 ->
+  exists ok w', push_move refuse s a x w = Ret (s, Out (OutBool ok)) w' /\
+    (ok = true -> Inv (own_dec own q) ownd [] w') /\
+    (ok = false ->
+       (forall b, heap w' b = upd (heap w) q (Some (CItem (rcq - 1) nq)) b) /\ next w' = next w /\
+       (1 < rcq -> Inv (own_dec own q) ownd [] w')).
+Proof. exact push_move_step. Qed.
+Print Assumptions C04_push_move.
+
+(* non-vacuity: a concrete 14-call history over the new calls follows the rules, so the theorem applies to it;
+   and a read before the first store is not a legal history (the model reports it as a fault) *)
+Example C04_history3_nonvacuous :
+  legal_history3 never 8 ex3_ops s3_0 own0 world0 /\
+  (exists s' outs w', run_hist3 never 8 ex3_ops s3_0 [] world0 = Ret (s', outs) w' /\
+     Inv (own_hist3 never 8 ex3_ops s3_0 own0 world0) own0 [] w') /\
+  run_hist3 never 8 [O3NewInt I8; O3Vals 0]%nat s3_0 [] world0 = Fault FUninit.
+Proof. split; [exact ex3_rules|]. split; [exact ex3_theorem_applies|]. vm_compute. reflexivity. Qed.
